@@ -1,9 +1,15 @@
 use super::response_output_format::ResponseOutputFormat;
 use crate::app::compass::compass_app_error::CompassAppError;
 use std::io::prelude::*;
+#[cfg(not(routee_compass_verif))]
 use std::{
     fs::File,
     sync::{Arc, Mutex},
+};
+#[cfg(routee_compass_verif)]
+use {
+    routee_compass_core::util::verif_sync::{File, Mutex},
+    std::sync::Arc,
 };
 
 pub enum ResponseSink {
